@@ -19,6 +19,7 @@ VERIF = os.path.dirname(os.path.dirname(os.path.abspath(__file__)))
 # (name, file, old, new)
 MUTANTS = {
     "C05": [
+        ("patch:own-c05-recursive-enumeration",),
         ("status-check-removed", "aldy/lpinterface.py", 'if status != "optimal":\n                return', 'if False:\n                return'),
         ("verify-removed", "aldy/lpinterface.py", "if not self.model.VerifySolution(SOLVER_PRECISON, True):", "if False:"),
         ("getvalue-no-round", "aldy/lpinterface.py", "x = int(round(x))", "x = int(x)"),
@@ -71,6 +72,8 @@ MUTANTS = {
     "C18": [
         ("patch:own-c18-bool-parsing",),
         ("patch:own-c18-exome-min-coverage",),
+        ("patch:own-c18-empty-options-section",),
+        ("patch:own-c18-neutral-value-parameter",),
         ("values-kept-as-strings", "aldy/profile.py", "                            self.__dict__[n] = typ(v)", "                            self.__dict__[n] = v"),
         ("precedence-reversed", "aldy/profile.py", '            **dict(prof.get("options", {}), **params),', '            **dict(params, **prof.get("options", {})),'),
         ("options-dropped-on-write", "aldy/profile.py", '                d["options"][k] = v', "                pass"),
